@@ -173,6 +173,19 @@ PROPS = {
           'functions never exceeds Parallelism and reads 1 while an Exclusive task runs. Non-trivial: queue and machine list non-empty / >=1 event.',
           nbatch=(13, 16), timeout=(900, 3400),
           must_observe=['placement_nontrivial', 'manager_snapshots_checked', 'offers_granted', 'e2e_runs', 'local_runs']),
+ 'C15': P('fault_enumeration',
+          'three monitors. (a) sequences: every operation sequence up to length 4 (quick, every 3rd) / 5 (thorough) over the alphabet {create, '
+          'write 5, write 300, commit, discard-writer, open, open at offset 3, stat, discard} on both store implementations, fault-free; plus four '
+          'write/commit/read protocols on the file store with a fault (optionally a short write) injected at every file-operation ordinal 0..23 '
+          'through the vfault file system. Oracle: a per-partition model: Open/Stat fail before a successful commit; afterwards Open(o) returns '
+          'exactly committed[o:], Stat the committed size and record count, until discarded; a Commit that returned nil must have persisted the '
+          'data (the next Open must succeed with those bytes). (b) retry reader (verif export) over a scripted stream: a transient failure at every '
+          'byte position of streams of 0,1,7,24 (quick) / 64 (thorough) bytes x partial-read sizes {whole,1,3}, each also as a permanent failure; '
+          'random multi-failure scripts up to 64 KiB; zero-delay policy of 5 retries: within budget => exactly the committed bytes then EOF; '
+          'permanent failure => an error and only a correct prefix before the failing byte. (c) concurrent writer/readers/discarder histories '
+          '(4 clients x 6 operations, unique payloads) recorded at the API boundary and checked with porcupine against a register model. '
+          'Non-trivial: a fault fired, a retry happened, or a concurrent history was checked.',
+          nbatch=(8, 16), must_observe=['ops_faulted', 'resumptions', 'budget_exhaustions_reported', 'reads_verified', 'porcupine_histories_ok']),
 }
 
 META = {
@@ -273,4 +286,10 @@ META = {
     note='Hooks: exec.VerifSchedule, VerifNewManager/Offer/Done, verifManagerLoop (one call at the top of machineManager.Do; no-op without the tag). '
          'Ties between equally loaded machines and equal requests are unspecified and compared by value only.',
     technique='exhaustive differential testing + invariant monitoring on hooked state snapshots + conservation (procs granted == procs returned)'),
+ 'C15': dict(
+    text='Fault enumeration at the file layer against a partition model, exhaustive failure positions for the resuming reader, and '
+         'linearizability checking (porcupine) of concurrent store histories.',
+    note='Uses exec.VerifFileStore/VerifMemoryStore/VerifNewRetryReader/VerifSetRetryPolicy. A Commit after a Write that itself reported an '
+         'error is the caller\'s mistake and is not judged. Reads may fail in concurrent histories (entry discarded under the reader).',
+    technique='fault injection with a model oracle; exhaustive failure-position enumeration; porcupine linearizability check'),
 }
